@@ -425,14 +425,41 @@ pub mod verif_work {
 }
 
 /// Computes the weight of a bunch of opcodes.
+///
+/// A loop header weighs `1 + iterations * weight(body)`, where the body is truncated at the end of the enclosing slice, and the body's instructions are then weighed again as ordinary successors. This is computed with one right-to-left pass per loop body (work proportional to the sum of the body lengths) instead of re-weighing every nested body recursively, which took time exponential in the number of loop headers.
 pub fn opcodes_weight(opcodes: &[OpCode]) -> u128 {
-    let (mut sum, mut rest) = opcodes_car_weight(opcodes);
-    while !rest.is_empty() {
-        let (delta_sum, new_rest) = opcodes_car_weight(rest);
-        rest = new_rest;
-        sum = sum.saturating_add(delta_sum);
+    let n = opcodes.len();
+    // body_weight[i]: for a loop header at index i, the weight of its body truncated at the end of the program.
+    let mut body_weight = vec![0u128; n];
+    for i in (0..n).rev() {
+        if let OpCode::Loop(_, body_len) = &opcodes[i] {
+            let end = (i + 1).saturating_add(*body_len as usize).min(n);
+            body_weight[i] = range_weight(opcodes, i + 1, end, &body_weight);
+        }
     }
-    sum
+    range_weight(opcodes, 0, n, &body_weight)
+}
+
+/// Weight of `opcodes[lo..hi]`, given the (program-truncated) body weights of the loop headers inside it. A loop body that would run past `hi` is truncated at `hi`; its weight is then the weight of everything between the header and `hi`, which is the running suffix sum.
+fn range_weight(opcodes: &[OpCode], lo: usize, hi: usize, body_weight: &[u128]) -> u128 {
+    let mut suffix = 0u128;
+    for j in (lo..hi).rev() {
+        let weight = match &opcodes[j] {
+            OpCode::Loop(iters, body_len) => {
+                #[cfg(melstf_verif)]
+                verif_work::bump();
+                let body = if (j + 1).saturating_add(*body_len as usize) <= hi {
+                    body_weight[j]
+                } else {
+                    suffix
+                };
+                body.saturating_mul(*iters as u128).saturating_add(1)
+            }
+            other => opcodes_car_weight(std::slice::from_ref(other)).0,
+        };
+        suffix = suffix.saturating_add(weight);
+    }
+    suffix
 }
 
 /// Compute the weight of the first bit of opcodes, returning a weight and what remains.
